@@ -52,8 +52,10 @@ def check_sat(formulas, timeout_ms=20000, stats=None, strategies=("default", "nl
     """-> (verdict str, model|None, seconds)"""
     t0 = time.time()
     verdict, model = "unknown", None
-    per = max(int(timeout_ms / len(strategies)), 1000)
+    shares = {"default": 0.7, "nlsat": 0.3}
+    tot = sum(shares.get(k, 0.5) for k in strategies)
     for kind in strategies:
+        per = max(int(timeout_ms * shares.get(kind, 0.5) / tot), 1000)
         try:
             s = _mk_solver(kind, per)
             for f in formulas:
